@@ -232,8 +232,8 @@ def build():
         ],
         "checks": checks,
         "notes": "See DESIGN.md (section 0 = as built). Exit 0 = held on everything explored; exit 1 + VIOLATION line; exit 2 = machinery failure. "
-        "Known findings: /verif/known_findings.json (16 entries 'fixed: ...' that suppress nothing, 1 open entry D25 under C05 printed as KNOWN-FINDING). "
-        "./check selftest demonstrates the binding of the specifications to the code; seeded/ holds 160 independently produced breaking changes and what caught them.",
+        "Known findings: /verif/known_findings.json (17 entries 'fixed: ...' that suppress nothing, 1 open entry D25 under C05 printed as KNOWN-FINDING). "
+        "./check selftest demonstrates the binding of the specifications to the code; seeded/ holds 180 independently produced breaking changes and what caught them.",
         "not_applicable": [{"property_id": p, "reason": PENDING_REASON} for p in props if p not in CHECKS],
     }
     (VERIF / "MANIFEST.json").write_text(json.dumps(m, indent=1))
